@@ -2,7 +2,7 @@
 REG = dict(
     engine='E1-enum',
     technique='bounded-exhaustive enumeration of syntax trees x layouts and of single-token edits (inputs with parse errors), fixed-point oracle on the real formatter; `garden format --check` through the real CLI',
-    text='Inputs: (1) the C17 layout space with the reduced depth-2 set in both tiers (every program of the depth-1 / depth-2 / representative / definition-level sets under every layout with <=1 (some groups <=2 in thorough) gaps deviating from canonical over the 8-separator alphabet, all string-literal content variants), here INCLUDING the layouts the parser rejects or maps to another tree; (2) every single-piece deletion, insertion-before and replacement over an 18-lexeme edit alphabet (identifiers, literals, unclosed string, brackets, `=`, `=>`, keywords, a line comment, a non-ASCII character) applied to the canonical text of 117 representative trees and items (quick) / of every C33 depth-1 tree and every definition-level program (thorough): mostly inputs with parse errors. Oracle: format(format(s)) == format(s) for every input, in process; `garden format --check <file>` through the real CLI (16 processes in parallel) exits 0 on every distinct output of the representative, definition and edit families up to a cap (1200 quick / 6000 thorough) and exits 1 on outputs the in-process check found unstable (a disagreement between the two is reported as adapter drift). Exhaustive within these bounds.',
+    text='Inputs: (1) the C17 layout space with the reduced depth-2 set in both tiers (every program of the depth-1 / depth-2 / representative / definition-level sets under every layout with <=1 (some groups <=2 in thorough) gaps deviating from canonical over the 8-separator alphabet, all string-literal content variants), here INCLUDING the layouts the parser rejects or maps to another tree; (2) every single-piece deletion, insertion-before and replacement over an 18-lexeme edit alphabet (identifiers, literals, unclosed string, brackets, `=`, `=>`, keywords, a line comment, a non-ASCII character) applied to the canonical text of 117 representative trees and items (quick) / of every C33 depth-1 tree and every definition-level program (thorough): mostly inputs with parse errors. Oracle: format(format(s)) == format(s) for every input, in process; `garden format --check <file>` through the real CLI (16 processes in parallel) exits 0 on every distinct output of the representative, definition and edit families up to a cap (400 quick / 6000 thorough) and exits 1 on outputs the in-process check found unstable (a disagreement between the two is reported as adapter drift). Exhaustive within these bounds.',
     note='The in-process adapter calls the same `format::format` as the CLI; the CLI additionally strips a reftest footer (`// args: ` lines) which the explored alphabet cannot produce. Inputs outside the layout / edit bounds are not covered.',
     design_ref='DESIGN.md §6 C17 / C18',
 )
@@ -69,13 +69,18 @@ def run(ctx):
     import time
     t0 = time.time()
     cache = c17.FormatCache(ctx, ["format"])
-    n_inputs = n_jobs = n_changed = n_err_inputs = 0
+    n_inputs = n_jobs = n_changed = n_err_inputs = n_fixed_inputs = 0
     unstable = {}            # F -> (sig, detail)
     cli_pool = {}            # F -> description (bounded, deterministic order)
-    cli_cap = 1200 if ctx.quick else 6000
+    cli_cap = 400 if ctx.quick else 6000
     status = {}
 
     def settle(pending):
+        # format(s) == s already says format(format(s)) == format(s) (the formatter is a function of the text; the CLI part
+        # re-runs it on a subset of exactly such outputs): only outputs that differ from their input need a second pass
+        nonlocal n_fixed_inputs
+        n_fixed_inputs += sum(1 for s, F, _, _ in pending if F == s)
+        pending = [p for p in pending if p[1] != p[0]]
         cache.fill([F for _, F, _, _ in pending])
         for s, F, desc, errs in pending:
             F2 = cache.d[F].get("formatted")
@@ -163,6 +168,8 @@ def run(ctx):
     ctx.outcome("edits: inputs", n_edits)
     ctx.outcome("edits: inputs with parse errors", n_edit_err)
     ctx.outcome("inputs the formatter changed", n_changed)
+    ctx.outcome("inputs that are already a fixed point (format(s) == s)", n_fixed_inputs)
+    ctx.assume("the formatter is a deterministic function of the text: an input with format(s) == s needs no second pass")
     ctx.outcome("second-pass formatter runs (distinct outputs)", cache.jobs)
     if n_changed == 0 or n_err_inputs == 0 or n_edit_err == 0 or n_edit_err == n_edits:
         raise Machinery(f"vacuous exploration: changed={n_changed} inputs with parse errors={n_err_inputs} edits={n_edits} broken edits={n_edit_err}")
@@ -170,7 +177,7 @@ def run(ctx):
     print(f"  [c18] edits {time.time() - t0:.1f}s edits={n_edits}", flush=True)
     # ---- (3) real CLI: `garden format --check` on the written file
     targets = list(cli_pool.items())
-    extra = [F for F in unstable if F not in cli_pool][:150 if ctx.quick else 600]
+    extra = [F for F in unstable if F not in cli_pool][:100 if ctx.quick else 600]
     os.makedirs(os.path.join(ctx.scratch, "fmt"), exist_ok=True)
 
     def one(arg):
